@@ -302,7 +302,42 @@ type MessageBadLongString struct {
 
 func (*MessageBadLongString) GetID() uint32 { return 900018 }
 
+// named Go types outside the enum convention: no codec path knows them, so they must be refused up front
+type (
+	NamedU8  uint8
+	NamedStr string
+	NamedF32 float32
+)
+
+type MessageBadNamedScalar struct {
+	A NamedU8
+	B uint32
+}
+
+func (*MessageBadNamedScalar) GetID() uint32 { return 900019 }
+
+type MessageBadNamedString struct {
+	A NamedStr `mavlen:"10"`
+}
+
+func (*MessageBadNamedString) GetID() uint32 { return 900020 }
+
+type MessageBadNamedArrayElem struct {
+	B uint32
+	A [3]NamedF32
+}
+
+func (*MessageBadNamedArrayElem) GetID() uint32 { return 900021 }
+
+type MessageBadEnumWithoutTag struct {
+	A UEnum
+	B uint32
+}
+
+func (*MessageBadEnumWithoutTag) GetID() uint32 { return 900022 }
+
 var malformed = []message.Message{
+	&MessageBadNamedScalar{}, &MessageBadNamedString{}, &MessageBadNamedArrayElem{}, &MessageBadEnumWithoutTag{},
 	&NoPrefixStruct{}, &MessageBadEnumNotUint64{}, &MessageBadEnumWireFloat{}, &MessageBadEnumWireUnknown{},
 	&MessageBadEnumWireInt16{}, &MessageBadInt{}, &MessageBadBool{}, &MessageBadSlice{}, &MessageBadPointer{},
 	&MessageBadStruct{}, &MessageBadMavlen{}, &MessageBadArrayOfBool{}, &MessageBadUint{},
@@ -312,7 +347,7 @@ var malformed = []message.Message{
 var _ = MessageBadUnexported{}.b
 
 func TestC17Generated(t *testing.T) {
-	rec := evid.New(t, "C17", "generated dialects: random subsets of shipped and user message types with injected faults - a duplicate id at a random position, or a malformed struct of every documented class (name prefix, enum not uint64, unsupported/non-enum mavenum type, unsupported Go field type, non-numeric mavlen) plus oversize (>255 bytes, array/string longer than 255) and unexported fields; Initialize must return an error (never nil followed by a panic at first Read/Write); fault-free dialects must initialize and serve every id; non-trivial = fault injected after >= 1 good message; distinct by hash of the id/type list")
+	rec := evid.New(t, "C17", "generated dialects: random subsets of shipped and user message types with injected faults - a duplicate id at a random position, or a malformed struct of every documented class (name prefix, enum not uint64, unsupported/non-enum mavenum type, unsupported Go field type incl. named scalar/string/array-element types and an enum type without its mavenum tag, non-numeric mavlen) plus oversize (>255 bytes, array/string longer than 255) and unexported fields; Initialize must return an error (never nil followed by a panic at first Read/Write); fault-free dialects must initialize and serve every id; non-trivial = fault injected after >= 1 good message; distinct by hash of the id/type list")
 	rec.Require("duplicate-id", "malformed-struct", "fault-free", "oversize-or-unexported", "dialect-object-edited-in-place")
 	tys := types(t)
 	// some cases re-initialize ONE dialect object that is edited in place between cases (same or different
